@@ -3,6 +3,7 @@ CONSTANTS
   MaxElems = 6
   MaxDepth = 6
   Fixed = TRUE
+  ReadTypes = {"n", "w", "r", "c"}
   ExportHist = TRUE
   Vocab = {"osm", "changeset", "tag", "discussion", "comment", "text", "foo"}
 INVARIANTS TypeOK WellFormedCommitted BuilderDiscipline NoStaleBuilders ObjectMatchesStack Export
